@@ -492,7 +492,7 @@ func init() {
 			}},
 		},
 		Sanitize: []string{"pairs", "unary", "index", "random"},
-		Floors:   []core.Floor{{Key: "tuples", Quick: 300000, Thor: 3000000}, {Key: "law_evaluations", Quick: 20000, Thor: 2000000}, {Key: "tag:op:", Quick: 400, Thor: 400}, {Key: "same_storage_pairs", Quick: 60, Thor: 60}, {Key: "vm_plain_forms", Quick: 60000, Thor: 60000}, {Key: "vm_temp_forms", Quick: 40000, Thor: 40000}, {Key: "tag:shape:", Quick: 34, Thor: 34}, {Key: "nontrivial", Quick: 20000, Thor: 1000000}},
+		Floors:   []core.Floor{{Key: "tuples", Quick: 300000, Thor: 3000000}, {Key: "law_evaluations", Quick: 20000, Thor: 2000000}, {Key: "tag:op:", Quick: 400, Thor: 400}, {Key: "same_storage_pairs", Quick: 60, Thor: 60}, {Key: "vm_plain_forms", Quick: 60000, Thor: 60000}, {Key: "vm_temp_forms", Quick: 40000, Thor: 40000}, {Key: "vm_literal_forms", Quick: 200000, Thor: 200000}, {Key: "tag:shape:", Quick: 34, Thor: 34}, {Key: "nontrivial", Quick: 20000, Thor: 1000000}},
 		Extra: func(a *core.Agg, cov map[string]any) {
 			cov["exhaustive_subspaces"] = "pairs, unary and index families enumerate the pool completely in both tiers"
 		},
